@@ -14,139 +14,7 @@ func c03Extra(c *eng.Ctx) {
 	c.Rule("R7", "probing can restart: whenever EnsureGatewayHealthCheck invokes the stored cancel function it also clears the cancelHealthCheck field on every path through that call (a non-nil field means 'a prober is running')", 1)
 
 	sl := c.Slicer()
-	// ---- R6
-	if se := c.MustMethod(pkgClusters, "ClusterInfo", "syncEndpoints"); se != nil {
-		isEndpointsDelete := func(ci ssa.CallInstruction) bool {
-			if !eng.MethodNameIs(ci, "LoadAndDelete") && !eng.MethodNameIs(ci, "Delete") {
-				return false
-			}
-			r := eng.Receiver(ci)
-			return eng.FieldAddrOf(r, tClusterInfo, "Endpoints") || eng.FieldLoadOf(r, tClusterInfo, "Endpoints")
-		}
-		// the delete may sit in se itself, in a closure handed to an iterator, or in an extracted helper
-		contains := func(f *ssa.Function) ssa.CallInstruction {
-			for _, g := range eng.WithClosures(f) {
-				for _, ci := range eng.Calls(g) {
-					if isEndpointsDelete(ci) {
-						return ci
-					}
-				}
-			}
-			return nil
-		}
-		var site ssa.Instruction // the instruction of se that performs the removal
-		var del ssa.CallInstruction
-		for _, ci := range eng.Calls(se) {
-			if isEndpointsDelete(ci) {
-				site, del = ci.(ssa.Instruction), ci
-				break
-			}
-			for _, a := range ci.Common().Args {
-				var f *ssa.Function
-				switch x := a.(type) {
-				case *ssa.MakeClosure:
-					f, _ = x.Fn.(*ssa.Function)
-				case *ssa.Function:
-					f = x
-				}
-				if f == nil {
-					// a bound method value: c.method passed as callback
-					continue
-				}
-				if d := contains(f); d != nil {
-					site, del = ci.(ssa.Instruction), d
-				}
-			}
-			if site == nil {
-				if f := eng.CalleeFn(ci); f != nil && f.Pkg == se.Pkg && eng.Analysable(f) {
-					if d := contains(f); d != nil {
-						site, del = ci.(ssa.Instruction), d
-					}
-				}
-			}
-			if site != nil {
-				break
-			}
-		}
-		if site == nil {
-			// method value callbacks: look through MakeClosure of bound methods ($bound)
-			for _, ci := range eng.Calls(se) {
-				for _, a := range ci.Common().Args {
-					if mc, ok := a.(*ssa.MakeClosure); ok {
-						if f, _ := mc.Fn.(*ssa.Function); f != nil && f.Synthetic != "" {
-							for _, cj := range eng.Calls(f) {
-								if g := eng.CalleeFn(cj); g != nil {
-									if d := contains(g); d != nil {
-										site, del = ci.(ssa.Instruction), d
-									}
-								}
-							}
-						}
-					}
-				}
-			}
-		}
-		if site == nil {
-			c.Fail("R6", se, "removal of unlisted endpoints", se.Pos(), "syncEndpoints never deletes from the Endpoints map: removed servers stay in rotation")
-		} else {
-			isSite := func(i ssa.Instruction) bool { return i == site }
-			isSkipFlag := func(v ssa.Value) bool { return eng.FieldLoadOf(v, tClusterInfo, "skipSyncEndpoints") }
-			k := 0
-			bad := ""
-			for _, b := range se.Blocks {
-				if b == se.Recover || len(b.Instrs) == 0 {
-					continue
-				}
-				ret, ok := b.Instrs[len(b.Instrs)-1].(*ssa.Return)
-				if !ok {
-					continue
-				}
-				k++
-				skips := eng.ReachFromEntry(se, eng.PathQuery{Target: func(i ssa.Instruction) bool { return i == ssa.Instruction(ret) }, Avoid: isSite}) != nil
-				if skips && !eng.GuardedByBool(ret, isSkipFlag, true) {
-					_, line := c.W.Pos(ret.Pos())
-					bad = fmt.Sprintf("the return at line %d is reachable without the removal", line)
-				}
-			}
-			c.Check("R6", se, "removal on every path to an exit", site.Pos(), bad == "",
-				"a sync that fails (or returns) before the removal leaves a server that was taken out of the list in rotation, with its prober alive"+c02Found(bad))
-			// the removed endpoint's context is cancelled
-			cancelled := false
-			for _, g := range eng.WithClosures(del.Parent()) {
-				for _, ci := range eng.Calls(g) {
-					if ci.Common().IsInvoke() || ci.Common().StaticCallee() != nil {
-						continue
-					}
-					if eng.FieldLoadOf(ci.Common().Value, tEndpointInfo, "cancel") &&
-						sl.DerivesFrom(ci.Common().Value, func(v ssa.Value) bool {
-							cc, i := eng.CallResultOf(v)
-							return cc != nil && ssa.CallInstruction(cc) == del && i == 0
-						}) {
-						cancelled = true
-					}
-				}
-			}
-			if eng.MethodNameIs(del, "LoadAndDelete") {
-				c.Check("R6", del.Parent(), "removed endpoint's context is cancelled", del.Pos(), cancelled,
-					"the endpoint taken out of the map must have its context cancelled (stops its prober and the requests watching it)")
-			}
-			// the names removed are current \ wanted: the receiver of the iteration derives from a Diff whose
-			// receiver is the current set — checked only when the iterator form is used
-			if rc, ok := site.(ssa.CallInstruction); ok && eng.MethodNameIs(rc, "Range") {
-				recv := eng.Receiver(rc)
-				cc, _ := eng.CallResultOf(recv)
-				okDiff := false
-				if cc != nil && eng.MethodNameIs(cc, "Diff") {
-					cur := eng.Receiver(cc)
-					okDiff = sl.WithArgs().DerivesFrom(cur, func(v ssa.Value) bool {
-						x, _ := eng.CallResultOf(v)
-						return x != nil && eng.MethodNameIs(x, "AllEndpoints")
-					})
-				}
-				c.Check("R6", se, "removed = current \\ wanted", rc.Pos(), okDiff, "the set iterated for removal must be Diff(current endpoints, wanted endpoints) with the current set as receiver")
-			}
-		}
-	}
+	c03RemovalEveryPath(c, "R6")
 
 	// ---- R7
 	if eg := c.MustFunc(pkgClusters, "EnsureGatewayHealthCheck"); eg != nil {
@@ -173,4 +41,95 @@ func c03Extra(c *eng.Ctx) {
 			c.Fail("R7", eg, "cancel ⇒ field cleared", eg.Pos(), "the stored cancel function is never invoked")
 		}
 	}
+}
+
+// c03RemovalEveryPath: the removal of unlisted endpoints in syncEndpoints is passed on every path
+// to an exit (C03.R6; the same obligation is a necessary condition of C15 and registered there
+// as C15.R5).
+func c03RemovalEveryPath(c *eng.Ctx, rule string) {
+	sl := c.Slicer()
+	if se := c.MustMethod(pkgClusters, "ClusterInfo", "syncEndpoints"); se != nil {
+		isEndpointsDelete := func(ci ssa.CallInstruction) bool {
+			if !eng.MethodNameIs(ci, "LoadAndDelete") && !eng.MethodNameIs(ci, "Delete") {
+				return false
+			}
+			r := eng.Receiver(ci)
+			return eng.FieldAddrOf(r, tClusterInfo, "Endpoints") || eng.FieldLoadOf(r, tClusterInfo, "Endpoints")
+		}
+		// the delete may sit in se itself, in a closure handed to an iterator, or in an extracted
+		// helper: find it in the region of se and lift it to the instruction of se it runs under
+		var site ssa.Instruction
+		var del ssa.CallInstruction
+		for _, g := range c.W.Region(se) {
+			for _, ci := range eng.Calls(g) {
+				if !isEndpointsDelete(ci) {
+					continue
+				}
+				if sites := c.W.SitesIn(se, ci.(ssa.Instruction)); len(sites) == 1 && site == nil {
+					site, del = sites[0], ci
+				}
+			}
+		}
+		if site == nil {
+			c.Fail(rule, se, "removal of unlisted endpoints", se.Pos(), "syncEndpoints never deletes from the Endpoints map: removed servers stay in rotation")
+		} else {
+			isSite := func(i ssa.Instruction) bool { return i == site }
+			isSkipFlag := func(v ssa.Value) bool { return eng.FieldLoadOf(v, tClusterInfo, "skipSyncEndpoints") }
+			k := 0
+			bad := ""
+			for _, b := range se.Blocks {
+				if b == se.Recover || len(b.Instrs) == 0 {
+					continue
+				}
+				ret, ok := b.Instrs[len(b.Instrs)-1].(*ssa.Return)
+				if !ok {
+					continue
+				}
+				k++
+				skips := eng.ReachFromEntry(se, eng.PathQuery{Target: func(i ssa.Instruction) bool { return i == ssa.Instruction(ret) }, Avoid: isSite}) != nil
+				if skips && !eng.GuardedByBool(ret, isSkipFlag, true) {
+					_, line := c.W.Pos(ret.Pos())
+					bad = fmt.Sprintf("the return at line %d is reachable without the removal", line)
+				}
+			}
+			c.Check(rule, se, "removal on every path to an exit", site.Pos(), bad == "",
+				"a sync that fails (or returns) before the removal leaves a server that was taken out of the list in rotation, with its prober alive"+c02Found(bad))
+			// the removed endpoint's context is cancelled
+			cancelled := false
+			for _, g := range eng.WithClosures(del.Parent()) {
+				for _, ci := range eng.Calls(g) {
+					if ci.Common().IsInvoke() || ci.Common().StaticCallee() != nil {
+						continue
+					}
+					if eng.FieldLoadOf(ci.Common().Value, tEndpointInfo, "cancel") &&
+						sl.DerivesFrom(ci.Common().Value, func(v ssa.Value) bool {
+							cc, i := eng.CallResultOf(v)
+							return cc != nil && ssa.CallInstruction(cc) == del && i == 0
+						}) {
+						cancelled = true
+					}
+				}
+			}
+			if eng.MethodNameIs(del, "LoadAndDelete") {
+				c.Check(rule, del.Parent(), "removed endpoint's context is cancelled", del.Pos(), cancelled,
+					"the endpoint taken out of the map must have its context cancelled (stops its prober and the requests watching it)")
+			}
+			// the names removed are current \ wanted: the receiver of the iteration derives from a Diff whose
+			// receiver is the current set — checked only when the iterator form is used
+			if rc, ok := site.(ssa.CallInstruction); ok && eng.MethodNameIs(rc, "Range") {
+				recv := eng.Receiver(rc)
+				cc, _ := eng.CallResultOf(recv)
+				okDiff := false
+				if cc != nil && eng.MethodNameIs(cc, "Diff") {
+					cur := eng.Receiver(cc)
+					okDiff = sl.WithArgs().DerivesFrom(cur, func(v ssa.Value) bool {
+						x, _ := eng.CallResultOf(v)
+						return x != nil && eng.MethodNameIs(x, "AllEndpoints")
+					})
+				}
+				c.Check(rule, se, "removed = current \\ wanted", rc.Pos(), okDiff, "the set iterated for removal must be Diff(current endpoints, wanted endpoints) with the current set as receiver")
+			}
+		}
+	}
+
 }
